@@ -17,7 +17,7 @@ REAL = ["Dispatcher.dispatch/reset/subscribe/unsubscribe/create_or_get_observer"
 STUB = ["recording observer subclasses defined by the harness (peers)"]
 ASSUMPTIONS = ["re-entrant (un)subscription from inside update() and subscribing one object twice through raw subscribe() are out of scope"]
 
-CHURN = ["new_single", "new_multi", "new_other", "new_history", "unsub", "resub", "dup_single", "cog", "bad_feature_observer"]
+CHURN = ["new_single", "new_multi", "new_other", "new_history", "unsub", "resub", "dup_single", "cog", "bad_feature_observer", "new_subsingle"]
 
 
 def generate(seed, tier):
@@ -70,8 +70,13 @@ class H(Hooks):
         self.k += 1
         return f"r{self.k}"
 
+    @staticmethod
+    def isa(k, kind):
+        """An observer of kind `k` is an instance of the class of `kind` (subsingle refines single)."""
+        return k == kind or (kind == "single" and k == "subsingle")
+
     def subscribed_of(self, kind):
-        return [t for t in self.subscribed if self.kind[t] == kind]
+        return [t for t in self.subscribed if self.isa(self.kind[t], kind)]
 
     def check_subscriber_list(self, w, when, allow_dependencies=False):
         real = w.disp.subscribers
@@ -91,9 +96,12 @@ class H(Hooks):
         rc = rec_classes()
         ctx, d = w.ctx, w.disp
         ctx.fault("subscription_churn:" + action)
-        if action in ("new_single", "new_multi", "new_other", "new_history", "dup_single"):
-            kind = {"new_single": "single", "new_multi": "multi", "new_other": "other", "new_history": "history", "dup_single": "single"}[action]
-            singleton_clash = kind in ("single", "other", "history") and bool(self.subscribed_of(kind))
+        if action in ("new_single", "new_multi", "new_other", "new_history", "dup_single", "new_subsingle"):
+            kind = {"new_single": "single", "new_multi": "multi", "new_other": "other", "new_history": "history", "dup_single": "single", "new_subsingle": "subsingle"}[action]
+            singleton_clash = kind in ("single", "other", "history", "subsingle") and bool(self.subscribed_of(kind))
+            # a refinement constructed while only its base type is subscribed: the statement does not say which
+            # of the two readings of "type" applies, so either outcome is taken as it comes
+            free = kind == "subsingle" and not singleton_clash and any(self.kind[t] == "single" for t in self.subscribed)
             if action == "dup_single" and not singleton_clash:
                 return "skip"
             sub = True if action == "dup_single" else (b % 4 != 0)
@@ -107,7 +115,7 @@ class H(Hooks):
                 else:
                     o = rc[kind](d, subscribe=sub, tag=tag, sink=self.sink, peek=peek)
             except Exception as e:  # noqa: BLE001
-                ctx.check(singleton_clash, "constructor_raises_only_for_singleton_clash", lambda: f"constructing {kind} observer raised {short_exc(e)} with subscribers {self.subscribed}")
+                ctx.check(singleton_clash or free, "constructor_raises_only_for_singleton_clash", lambda: f"constructing {kind} observer raised {short_exc(e)} with subscribers {self.subscribed}")
                 self.check_subscriber_list(w, "after rejected singleton construction")
                 ctx.probe("singleton_clash_rejected")
                 return "raised"
@@ -138,7 +146,7 @@ class H(Hooks):
             self.subscribed.remove(tag)
             return tag
         if action == "resub":
-            cands = [t for t in self.objs if t not in self.subscribed and not (self.kind[t] != "multi" and self.subscribed_of(self.kind[t]))]
+            cands = [t for t in self.objs if t not in self.subscribed and not (self.kind[t] != "multi" and (self.subscribed_of(self.kind[t]) or any(self.isa(self.kind[t], self.kind[u]) for u in self.subscribed)))]
             if not cands:
                 return "skip"
             tag = cands[a % len(cands)]
